@@ -25,7 +25,7 @@ Qed.
 Lemma exc_eqb_refl e : exc_eqb e e = true.
 Proof. apply Z.eqb_refl. Qed.
 
-Lemma run_model_spec c : valid c -> run_model c = run_spec (cC c) (cO c) (cT c).
+Lemma run_model_spec c : valid c -> run_model c = run_spec (cV c) (cC c) (cO c) (cT c).
 Proof.
   unfold valid, validb. intros Hv. apply andb_true_iff in Hv as [Hv Hy].
   apply variants_eqb_eq in Hv.
@@ -41,7 +41,7 @@ Qed.
 Lemma holds_model c : valid c -> holds c (run_model c) = [].
 Proof.
   intros Hv. unfold holds. rewrite (run_model_spec c Hv).
-  destruct (run_spec (cC c) (cO c) (cT c)) as [d|e].
+  destruct (run_spec (cV c) (cC c) (cO c) (cT c)) as [d|e].
   - unfold same_dict. now rewrite same_refl.
   - now rewrite exc_eqb_refl.
 Qed.
